@@ -100,6 +100,13 @@ pub trait Prop: Sync + Send {
     fn max_workers(&self) -> usize {
         16
     }
+    /// Small canonical scenarios that may be executed earlier in the same process. Used only when
+    /// a failing scenario does not reproduce in a fresh process: the library then keeps state
+    /// across connections (process-wide), and the replay file records which earlier activity
+    /// the failure needs.
+    fn preludes(&self, _sc: &Self::Sc) -> Vec<Self::Sc> {
+        vec![]
+    }
     /// does a known-findings `match` object apply to this minimised scenario?
     fn matches_finding(&self, _sc: &Self::Sc, _m: &Value) -> bool {
         true
@@ -264,6 +271,9 @@ pub struct ReplayFile {
     pub shrink_executions: usize,
     pub scenario: Value,
     pub trace: Value,
+    /// scenario executed first in the same process (the failure depends on process-wide state)
+    #[serde(default)]
+    pub prelude: Option<Value>,
 }
 
 pub fn replay<P: Prop>(p: &P, path: &Path) -> i32 {
@@ -288,6 +298,18 @@ pub fn replay<P: Prop>(p: &P, path: &Path) -> i32 {
             return 2;
         },
     };
+    if let Some(pre) = &rf.prelude {
+        match serde_json::from_value::<P::Sc>(pre.clone()) {
+            Ok(pre) => {
+                let _ = p.execute(&pre);
+                println!("replay: executed the recorded prelude scenario first (failure depends on process-wide state)");
+            },
+            Err(e) => {
+                eprintln!("harness error: bad prelude in replay file: {}", e);
+                return 2;
+            },
+        }
+    }
     let r = p.execute(&sc);
     let same_clause = r.violations.iter().find(|v| v.clause == rf.clause);
     match same_clause {
@@ -478,7 +500,7 @@ pub fn run_batch<P: Prop>(p: &P, opts: &Opts) -> i32 {
             continue;
         }
         let min_size = serde_json::to_string(&min_sc).map(|s| s.len()).unwrap_or(0);
-        let rf = ReplayFile {
+        let mut rf = ReplayFile {
             property: p.id().to_string(),
             seed: opts.seed,
             run_index: *idx,
@@ -491,6 +513,7 @@ pub fn run_batch<P: Prop>(p: &P, opts: &Opts) -> i32 {
             shrink_executions: execs,
             scenario: serde_json::to_value(&min_sc).unwrap(),
             trace: p.trace(&min_sc),
+            prelude: None,
         };
         let fname = format!(
             "{}-{}-{}{}-{}.json",
@@ -501,18 +524,33 @@ pub fn run_batch<P: Prop>(p: &P, opts: &Opts) -> i32 {
             clause.replace(['.', '/'], "_")
         );
         let path = replay_dir.join(fname);
-        std::fs::write(&path, serde_json::to_string_pretty(&rf).unwrap()).expect("write replay");
-        // confirm in a fresh process
-        let confirmed = match std::process::Command::new(std::env::current_exe().unwrap())
-            .arg(p.id())
-            .arg("--replay")
-            .arg(&path)
-            .env("VERIF_ROOT", &root)
-            .output()
-        {
-            Ok(o) => o.status.code() == Some(1),
-            Err(_) => false,
-        };
+        // confirm in a fresh process; if that fails, the failure may need earlier activity in
+        // the same process (library state shared between connections): try the preludes
+        let mut candidates: Vec<Option<Value>> = vec![None];
+        for pre in p.preludes(&min_sc) {
+            candidates.push(Some(serde_json::to_value(&pre).unwrap()));
+        }
+        let mut confirmed = false;
+        for cand in candidates {
+            rf.prelude = cand;
+            std::fs::write(&path, serde_json::to_string_pretty(&rf).unwrap()).expect("write replay");
+            confirmed = match std::process::Command::new(std::env::current_exe().unwrap())
+                .arg(p.id())
+                .arg("--replay")
+                .arg(&path)
+                .env("VERIF_ROOT", &root)
+                .output()
+            {
+                Ok(o) => o.status.code() == Some(1),
+                Err(_) => false,
+            };
+            if confirmed {
+                if rf.prelude.is_some() {
+                    println!("note: the violation below reproduces in a fresh process only after the recorded prelude scenario: the library keeps process-wide state across connections");
+                }
+                break;
+            }
+        }
         if !confirmed {
             eprintln!("harness error: replay file {} did not reproduce in a fresh process", path.display());
             harness_error = true;
@@ -544,6 +582,7 @@ pub fn run_batch<P: Prop>(p: &P, opts: &Opts) -> i32 {
             shrink_executions: 0,
             scenario: serde_json::to_value(&sc).unwrap(),
             trace: Value::Null,
+            prelude: None,
         };
         let _ = std::fs::write(&path, serde_json::to_string_pretty(&rf).unwrap());
         println!("VIOLATION property={} replay={}", p.id(), path.display());
